@@ -7,7 +7,7 @@ import tempfile
 from hypothesis import strategies as st
 
 from vlib import gen_range, cidlib, gen_fields, model_fields
-from vlib.runner import norm_message
+from vlib.runner import norm_message, reused_dir
 
 import cutplace
 from cutplace import errors
@@ -248,7 +248,7 @@ def _shard(args):
 
     index, count = args
     sub = Sub("matrix")
-    tmpdir = tempfile.mkdtemp(prefix="c03-")
+    tmpdir = reused_dir("c03")
     evals = nontrivial = 0
     try:
         for number, case in enumerate(_configs()):
@@ -331,7 +331,7 @@ def run(ctx):
 
 
 def replay(sub, case):
-    tmpdir = tempfile.mkdtemp(prefix="c03-")
+    tmpdir = reused_dir("c03")
     try:
         e, n = check_config(sub, case, tmpdir)
         sub.evaluations += e
